@@ -237,6 +237,18 @@ impl Vt for Pz {
     fn bump(&mut self, _: u32) {}
 }
 
+/// zero-size with alignment 8
+impl Vt for [u64; 0] {
+    const HAS_TOK: bool = false;
+    fn mk(_: u32) -> Self {
+        []
+    }
+    fn tok(&self) -> u32 {
+        0
+    }
+    fn bump(&mut self, _: u32) {}
+}
+
 /// 4 bytes, not Copy, no destructor
 #[derive(Clone)]
 pub struct Nc(pub u32);
